@@ -105,6 +105,61 @@ def config_stream(res, names, cases, digits_choices=(0, 1, 2, 3)):
                                      'impl_output': {'table': got[:8], 'histogram_of_own_cycles': want[:8]}})
 
 
+def micro_stream(res, names, rng, k):
+    """micro ties: the shape of a tie-rich history of small integers with every point moved by 0, 1, 2 or 3 units of 2^-40 (all
+    values and differences still exact in binary64).  Ranges that tie in the integer shape now differ by ~1e-12, far below the
+    8 decimals to which aggregated ranges are rounded: a comparison carried out on rounded ranges, or with a tolerance derived from
+    globalConfig.atol, changes which cycles are extracted, exact arithmetic does not.  The cycle-by-cycle list (not rounded by the
+    implementation) is compared exactly with the model; the aggregated table must be the histogram of the own list at 8 digits."""
+    core.import_impl()
+    from ffpack import lcc
+    S = 40
+    reqs, meta = [], []
+    for _ in range(k):
+        while True:
+            b, _s = core.gen_history(rng, maxlen=16, closed=(rng.random() < 0.4))
+            if max(abs(v) for v in b) < 2048 and len(set(b)) >= 2:
+                break
+        h = [v * (1 << S) + rng.choice([0, 0, 1, -1, 2, 3]) for v in b]
+        if b[0] == b[-1] and rng.random() < 0.8:
+            h[-1] = h[0]
+        for name in names:
+            if not valid_for(name, h):
+                continue
+            f = getattr(lcc, API[name])
+            data = floats(h, S)
+            res.evaluations += 1
+            res.stat('micro_tie_history')
+            try:
+                seq = f(list(data), aggregate=False)
+                agg = f(list(data), aggregate=True)
+                seq = [] if seq == [[]] else seq
+                agg = [] if agg == [[]] else agg
+                cs = [(to_grid(a, S), to_grid(b2, S), units(c)) for a, b2, c in seq]
+            except Exception as e:  # noqa
+                res.failures.append({'signature': f'{res.pid}:{name}:micro-tie:{type(e).__name__}:{enc_list(h)}',
+                                     'clause': 'valid history (values k * 2^-40) raised or returned off-grid end points: ' + repr(e)[:120],
+                                     'api': API[name], 'input': h, 'scale': S})
+                continue
+            want = {}
+            for a, b2, c in seq:
+                key = float(round(abs(b2 - a), 8))
+                want[key] = want.get(key, 0) + float(c)
+            want = sorted(want.items())
+            got = [(float(x), float(c)) for x, c in agg]
+            if len(got) != len(want) or any(abs(g[0] - w[0]) > 1e-12 or g[1] != w[1] for g, w in zip(got, want)):
+                res.failures.append({'signature': f'{res.pid}:{name}:micro-tie:histogram:{enc_list(h)}',
+                                     'clause': 'aggregated table is not the histogram of the cycle list at 8 digits (values k * 2^-40)',
+                                     'api': API[name], 'input': h, 'scale': S, 'impl_output': {'table': got[:8], 'histogram_of_own_cycles': want[:8]}})
+            reqs.append(model_line(name, h))
+            meta.append((name, h, cs))
+    for (name, h, cs), ans in zip(meta, core.driver_batch(reqs)):
+        res.traces += 1
+        if enc_cycs(cs) != ans.split(' ')[0]:
+            res.disagreements.append({'what': f'{API[name]} vs model (cycle list, micro ties on the 2^-40 grid)', 'input': h, 'scale': S,
+                                      'impl': enc_cycs(cs), 'model': ans.split(' ')[0]})
+
+
 def run_impl(name, h, s):
     """-> {'seq': [(a,b,u)], 'table': [(k,u)]} on the integer grid, or {'error': kind}"""
     core.import_impl()
